@@ -2,6 +2,7 @@ package main
 
 import (
 	"fmt"
+	"go/ast"
 	"go/constant"
 	"go/token"
 	"go/types"
@@ -123,6 +124,9 @@ func rulesC05(c *Ctx) {
 
 	// ---- position origin ----
 	posoriginC05(c, entry)
+	// ---- sub-scanner entry matches what the sub-scanner accepts ----
+	c.Rule("C05.idententry", "Scan hands a rune to the identifier scanner exactly when isIdentFirstChar accepts it (or it is a double quote): for any other rune the identifier scanner reads nothing, the token is empty and the scan never gets past that rune")
+	identEntryRule(c, "C05.idententry")
 	// ---- column arithmetic ----
 	columnC05(c)
 	// ---- CR folding ----
@@ -335,6 +339,7 @@ func rulesC06(c *Ctx) {
 			}
 		}
 	}
+	vacuousIndexRule(c, "C06.lastindex", "QuoteIdent", "QuoteString")
 	// QuoteString / QuoteIdent route everything through the replacer
 	c.Rule("C06.route", "QuoteString and QuoteIdent write the value only after passing it through their replacer, on every path (no raw fast path), between the matching quotes")
 	for fn, g := range map[string]string{"QuoteString": "qsReplacer", "QuoteIdent": "qiReplacer"} {
@@ -452,44 +457,7 @@ func rulesC06(c *Ctx) {
 		}
 	}
 	c.Check(usesFirst && usesCont, "C06.bare", "IdentNeedsQuotes: uses the lexer's predicates", inq.Pos(), "the decision must use isIdentFirstChar for the first rune and isIdentChar for the rest")
-	// scanner entry vs isIdentFirstChar
-	rows, why := p.scanTable()
-	if rows == nil {
-		c.Unk("C06.bare", "Scanner.Scan", 0, why)
-		return
-	}
-	first := p.Func("isIdentFirstChar")
-	s := p.newSCCP()
-	seen := map[rune]bool{}
-	for _, r := range rows {
-		if seen[r.c0] {
-			continue
-		}
-		seen[r.c0] = true
-		isIdentPath := r.kind == "delegate" && r.callee == "scanIdent"
-		pred, ok := s.evalConstBool(first, cConst(constant.MakeInt64(int64(r.c0))))
-		key := fmt.Sprintf("Scanner.Scan: identifier path for %q", r.c0)
-		if !ok {
-			c.Unk("C06.bare", key, 0, "isIdentFirstChar is not a constant function of the rune")
-			continue
-		}
-		want := pred || r.c0 == '"'
-		c.Check(isIdentPath == want, "C06.bare", key, 0, fmt.Sprintf("scanner enters the identifier path=%v, isIdentFirstChar=%v", isIdentPath, pred))
-	}
-	// continuation: ScanBareIdent uses isIdentChar
-	sb := p.SSAFunc(p.Func("ScanBareIdent"))
-	usesCont = false
-	if sb != nil {
-		for _, b := range sb.Blocks {
-			for _, in := range b.Instrs {
-				if call, ok := in.(*ssa.Call); ok && call.Call.StaticCallee() != nil && call.Call.StaticCallee().Name() == "isIdentChar" {
-					usesCont = true
-				}
-			}
-		}
-	}
-	c.Check(usesCont, "C06.bare", "ScanBareIdent: continues on isIdentChar", 0, "the bare-identifier scanner must continue exactly on isIdentChar")
-	_ = strings.TrimSpace
+	identEntryRule(c, "C06.bare")
 }
 
 func derivesFromParam(v ssa.Value, f *ssa.Function, depth int) bool {
@@ -744,4 +712,90 @@ func fieldNameOf(fa *ssa.FieldAddr) string {
 		return st.Field(fa.Field).Name()
 	}
 	return ""
+}
+
+// identEntryRule: Scan hands a rune to the identifier scanner exactly when the
+// identifier scanner will accept it as a first character.
+func identEntryRule(c *Ctx, rule string) {
+	p := c.P
+	// scanner entry vs isIdentFirstChar
+	rows, why := p.scanTable()
+	if rows == nil {
+		c.Unk(rule, "Scanner.Scan", 0, why)
+		return
+	}
+	first := p.Func("isIdentFirstChar")
+	s := p.newSCCP()
+	seen := map[rune]bool{}
+	for _, r := range rows {
+		if seen[r.c0] {
+			continue
+		}
+		seen[r.c0] = true
+		isIdentPath := r.kind == "delegate" && r.callee == "scanIdent"
+		pred, ok := s.evalConstBool(first, cConst(constant.MakeInt64(int64(r.c0))))
+		key := fmt.Sprintf("Scanner.Scan: identifier path for %q", r.c0)
+		if !ok {
+			c.Unk(rule, key, 0, "isIdentFirstChar is not a constant function of the rune")
+			continue
+		}
+		want := pred || r.c0 == '"'
+		c.Check(isIdentPath == want, rule, key, 0, fmt.Sprintf("scanner enters the identifier path=%v, isIdentFirstChar=%v", isIdentPath, pred))
+	}
+	// continuation: ScanBareIdent uses isIdentChar
+	sb := p.SSAFunc(p.Func("ScanBareIdent"))
+	usesCont := false
+	if sb != nil {
+		for _, b := range sb.Blocks {
+			for _, in := range b.Instrs {
+				if call, ok := in.(*ssa.Call); ok && call.Call.StaticCallee() != nil && call.Call.StaticCallee().Name() == "isIdentChar" {
+					usesCont = true
+				}
+			}
+		}
+	}
+	c.Check(usesCont, rule, "ScanBareIdent: continues on isIdentChar", 0, "the bare-identifier scanner must continue exactly on isIdentChar")
+	_ = strings.TrimSpace
+}
+
+// vacuousIndexRule: inside `for i := range X`, i is below len(X); a test
+// `i == len(X)` (or >=) never holds, so whatever it selects never happens.
+func vacuousIndexRule(c *Ctx, rule string, fns ...string) {
+	p := c.P
+	c.Rule(rule, "in the quoting helpers no comparison tests a range index for equality with (or being at least) the length of the slice it ranges over: such a test is never true, so the case it is meant to pick out (the last segment) is silently never taken")
+	n := 0
+	for _, name := range fns {
+		fn := p.Func(name)
+		fd := p.FuncDecls[fn]
+		if fd == nil || fd.Body == nil {
+			c.Unk(rule, name, 0, "anchor not found")
+			continue
+		}
+		ga := p.newGuardAnalysis()
+		pe := ga.pe
+		seen := map[ast.Node]bool{}
+		ga.run(fd.Body, func(nd ast.Node, f *facts) {
+			b, ok := nd.(*ast.BinaryExpr)
+			if !ok || seen[b] {
+				return
+			}
+			switch b.Op {
+			case token.EQL, token.GEQ, token.NEQ, token.LSS:
+			default:
+				return
+			}
+			for _, pr := range [][2]ast.Expr{{b.X, b.Y}, {b.Y, b.X}} {
+				ip, ok1 := pe.pathOf(pr[0])
+				lp, ok2 := pe.lenArg(pr[1], f)
+				if !ok1 || !ok2 || f.inRange[ip] != lp {
+					continue
+				}
+				seen[b] = true
+				n++
+				key := fmt.Sprintf("%s: %s", name, types.ExprString(b))
+				c.Bad(rule, key, b.Pos(), fmt.Sprintf("%s ranges over %s, so it is always below its length: this comparison has a fixed outcome", types.ExprString(pr[0]), lp))
+			}
+		})
+	}
+	c.OK(rule, "range-index comparisons examined", 0, fmt.Sprintf("%d vacuous comparisons", n))
 }
